@@ -212,8 +212,10 @@ pub fn validate(toks: Vec<Tok>) -> Vec<Tok> {
 }
 
 /// `TlsHostsSettings` validation through the builder and through the hosts-file text + `Core::new`.
-/// in : [bad_group (0 none, 1 main, 2 reverse proxy, 3 ping, 4 speedtest), bad_index] main rp ping speed
-///      (names: flat [len, bytes...]*; the host at bad_group/bad_index points at a file that holds no certificate)
+/// in : [bad_group (0 none, 1 main, 2 reverse proxy, 3 ping, 4 speedtest), bad_index, bad_kind] main rp ping speed [alts]
+///      (names: flat [len, bytes...]*; alts: the main hosts' alternative SNIs, flat [main index, len, bytes...]*;
+///      the host at bad_group/bad_index: bad_kind 0 (or absent) = certificate and key paths name a file that holds neither,
+///      1 = the certificate path names a file that holds the key only, the key path is good)
 /// out: [builder refused, Core::new refused]
 pub fn hosts(toks: Vec<Tok>) -> Vec<Tok> {
     use trusttunnel::settings::{TlsHostInfo, TlsHostsSettings};
@@ -231,8 +233,22 @@ pub fn hosts(toks: Vec<Tok>) -> Vec<Tok> {
     let (bg, bi) = (toks[0][0], toks[0][1] as usize);
     let good = crate::ctxutil::cert_path();
     let bad = good.replace("test_cert_key.pem", "not_a_cert.txt");
+    let bad_kind = toks[0].get(2).copied().unwrap_or(0);
+    let key_only = crate::ctxutil::key_only_path();
     let groups: Vec<Vec<String>> = (1..5).map(|i| names(&toks[i])).collect();
-    let path = |g: usize, k: usize| if bg as usize == g + 1 && bi == k { bad.clone() } else { good.clone() };
+    let mut alts: Vec<Vec<String>> = vec![vec![]; groups[0].len()];
+    if let Some(t) = toks.get(5) {
+        let ab = bytes(t);
+        let mut i = 0;
+        while i + 1 < ab.len() {
+            let (h, l) = (ab[i] as usize, ab[i + 1] as usize);
+            alts[h].push(String::from_utf8_lossy(&ab[i + 2..i + 2 + l]).to_string());
+            i += 2 + l;
+        }
+    }
+    let is_bad = |g: usize, k: usize| bg as usize == g + 1 && bi == k;
+    let path = |g: usize, k: usize| if !is_bad(g, k) { good.clone() } else if bad_kind == 1 { key_only.clone() } else { bad.clone() };
+    let key_path = |g: usize, k: usize| if is_bad(g, k) && bad_kind != 1 { bad.clone() } else { good.clone() };
     let infos = |g: usize| -> Vec<TlsHostInfo> {
         groups[g]
             .iter()
@@ -240,8 +256,8 @@ pub fn hosts(toks: Vec<Tok>) -> Vec<Tok> {
             .map(|(k, n)| TlsHostInfo {
                 hostname: n.clone(),
                 cert_chain_path: path(g, k),
-                private_key_path: path(g, k),
-                allowed_sni: vec![],
+                private_key_path: key_path(g, k),
+                allowed_sni: if g == 0 { alts[k].clone() } else { vec![] },
             })
             .collect()
     };
@@ -261,8 +277,11 @@ pub fn hosts(toks: Vec<Tok>) -> Vec<Tok> {
                 key,
                 n,
                 path(g, k),
-                path(g, k)
+                key_path(g, k)
             );
+            if g == 0 && !alts[k].is_empty() {
+                text += &format!("allowed_sni = {:?}\n", alts[k]);
+            }
         }
     }
     let via_core = match toml::from_str::<TlsHostsSettings>(&text) {
